@@ -302,3 +302,138 @@ def gen_panic(tier, kind, kinds=None, fixed_seed=None):
                 names.append(nm)
                 out.append(txt)
     return "\n".join(out), names
+
+
+# ------------------------------------------------------------------------------------------
+# C10: poisoning model
+# ------------------------------------------------------------------------------------------
+POIS_SHAPES = {
+    # name: (setup lines, has containing collection, leaf kind, collection sharable)
+    "pm": (["let po: PM = Poisonable::new(new_m(6));"], None, "M"),
+    "pr": (["let po: PR = Poisonable::new(new_r(6));"], None, "R"),
+    "bx_pm": (["let u = universe();", "let po: PM = Poisonable::new(new_m(6));",
+               "let coll = BoxedLockCollection::try_new((&po, &u.m0)).unwrap();"], "boxed", "M"),
+    "bx_pr": (["let u = universe();", "let po: PR = Poisonable::new(new_r(6));",
+               "let coll = BoxedLockCollection::try_new((&u.r1, &po)).unwrap();"], "boxed", "R"),
+    "rt_pm": (["let u = universe();", "let po: PM = Poisonable::new(new_m(6));",
+               "let coll = RetryingLockCollection::try_new((&u.m1, &po)).unwrap();"], "retry", "M"),
+    "rf_pr": (["let u = universe();", "let po: PR = Poisonable::new(new_r(6));", "let tup = (&po, &u.r0);",
+               "let coll = RefLockCollection::try_new(&tup).unwrap();"], "ref", "R"),
+    "ow_pm": (["let po: PM = Poisonable::new(new_m(6));", "let tup = (po, new_m(7));",
+               "let coll = RefLockCollection::new(&tup);", "let po = &tup.0;"], "ref-owned", "M"),
+}
+
+
+def pois_routes(name):
+    setup, coll, k = POIS_SHAPES[name]
+    excl = "write" if False else None
+    R = []  # (route name, exclusive?, rust lines using site number S)
+    unwrap = "match %s { Ok(g) => g, Err(e) => e.into_inner() }"
+    R.append(("own_lock", True, ["let g = " + unwrap % "po.lock(key())" + ";", "user_point(S);", "drop(g);"]))
+    R.append(("own_try_lock", True, [
+        "match po.try_lock(key()) {", "\tOk(g) => { user_point(S); drop(g); }",
+        "\tErr(crate::poisonable::TryLockPoisonableError::Poisoned(e)) => { let g = e.into_inner(); user_point(S); drop(g); }",
+        "\tErr(crate::poisonable::TryLockPoisonableError::WouldBlock(kb)) => { drop(kb); }", "}"]))
+    R.append(("own_scoped_lock", True, ["po.scoped_lock(key(), |_d| { user_point(S); });"]))
+    R.append(("own_scoped_try_lock", True, ["let _ = po.scoped_try_lock(key(), |_d| { user_point(S); });"]))
+    if k == "R":
+        R.append(("own_read", False, ["let g = " + unwrap % "po.read(key())" + ";", "user_point(S);", "drop(g);"]))
+        R.append(("own_scoped_read", False, ["po.scoped_read(key(), |_d| { user_point(S); });"]))
+    if coll:
+        R.append(("coll_lock", True, ["let g = coll.lock(key());", "user_point(S);", "drop(g);"]))
+        R.append(("coll_try_lock", True, ["match coll.try_lock(key()) { Ok(g) => { user_point(S); drop(g); } Err(kb) => { drop(kb); } }"]))
+        R.append(("coll_scoped_lock", True, ["coll.scoped_lock(key(), |_d| { user_point(S); });"]))
+        R.append(("coll_scoped_try_lock", True, ["let _ = coll.scoped_try_lock(key(), |_d| { user_point(S); });"]))
+        if k == "R":
+            R.append(("coll_read", False, ["let g = coll.read(key());", "user_point(S);", "drop(g);"]))
+            R.append(("coll_scoped_read", False, ["coll.scoped_read(key(), |_d| { user_point(S); });"]))
+    return R
+
+
+ROUTE_IDS = {"own_lock": 0, "own_try_lock": 1, "own_scoped_lock": 2, "own_scoped_try_lock": 3, "own_read": 4, "own_scoped_read": 5,
+             "coll_lock": 6, "coll_try_lock": 7, "coll_scoped_lock": 8, "coll_scoped_try_lock": 9, "coll_read": 10,
+             "coll_scoped_read": 11}
+
+
+def pois_step(routes, idx, site):
+    """rust for executing route #idx (python int) wrapped in catch_unwind, updating the model"""
+    nm, excl, lines = routes[idx]
+    L = ["eng::event(E_MARK, %d, 0);" % (9100 + ROUTE_IDS[nm])]
+    L.append("let r = catch_unwind(AssertUnwindSafe(|| {")
+    L += ["\t" + l.replace("S", str(site)) if "user_point(S)" in l else "\t" + l for l in lines]
+    L.append("}));")
+    L.append("let panicked = r.is_err();")
+    L.append("core::mem::forget(r);")
+    if excl:
+        L.append("if panicked { must = true; may = true; }")
+    else:
+        L.append("if panicked { may = true; }")
+    L.append("vcheck!(!w().held_any(), M_LEAK);")
+    L.append("let p = po.is_poisoned();")
+    L.append("vcheck!(!must || p, M_POISON_MODEL);")
+    L.append("vcheck!(may || !p, M_POISON_MODEL);")
+    return L
+
+
+def pois_entry(name, ia):
+    setup, coll, k = POIS_SHAPES[name]
+    routes = pois_routes(name)
+    L = ["w().reset(false);"] + setup
+    L.append("let mut must = false;")
+    L.append("let mut may = false;")
+    L.append("w().user_panic_armed.set(true);")
+    L += pois_step(routes, ia, 1)
+    L.append("if any_bool(T_MISC | 1) { po.clear_poison(); must = false; may = false; vcheck!(!po.is_poisoned(), M_POISON_MODEL); }")
+    L.append("let ib = any_below(T_OPCODE | 1, %d);" % len(routes))
+    L.append("match ib {")
+    for j in range(len(routes)):
+        pat = "_" if j == len(routes) - 1 else str(j)
+        L.append("\t%s => {" % pat)
+        L += ["\t\t" + x for x in pois_step(routes, j, 2)]
+        L.append("\t}")
+    L.append("}")
+    L.append("w().user_panic_armed.set(false);")
+    L.append("if any_bool(T_MISC | 2) { po.clear_poison(); must = false; may = false; }")
+    # subsequent acquisitions by the same thread: verdicts follow the model, errors carry a working guard
+    L.append("eng::event(E_MARK, 9199, 0);")
+    L.append("match po.lock(key()) {")
+    L.append("\tOk(g) => { vcheck!(!must, M_POISON_MODEL); vcheck!(w().held_any(), M_NOT_ALL_HELD); drop(g); }")
+    L.append("\tErr(e) => { vcheck!(may, M_POISON_MODEL); let mut g = e.into_inner(); vcheck!(w().held_any(), M_NOT_ALL_HELD); *g = 9; drop(g); }")
+    L.append("}")
+    L.append("vcheck!(!w().held_any(), M_LEAK);")
+    L.append("match po.try_lock(key()) {")
+    L.append("\tOk(g) => { vcheck!(!must, M_POISON_MODEL); drop(g); }")
+    L.append("\tErr(crate::poisonable::TryLockPoisonableError::Poisoned(e)) => { vcheck!(may, M_POISON_MODEL); drop(e.into_inner()); }")
+    L.append("\tErr(crate::poisonable::TryLockPoisonableError::WouldBlock(kb)) => { vcheck!(false, M_TRY_VERDICT); drop(kb); }")
+    L.append("}")
+    L.append("let se = po.scoped_lock(key(), |d| d.is_err());")
+    L.append("vcheck!((!must || se) && (may || !se), M_POISON_MODEL);")
+    if k == "R":
+        L.append("match po.read(key()) { Ok(g) => { vcheck!(!must, M_POISON_MODEL); drop(g); } Err(e) => { vcheck!(may, M_POISON_MODEL); drop(e.into_inner()); } }")
+        L.append("let sr = po.scoped_read(key(), |d| d.is_err());")
+        L.append("vcheck!((!must || sr) && (may || !sr), M_POISON_MODEL);")
+    if coll:
+        pos = {"bx_pm": 0, "bx_pr": 1, "rt_pm": 1, "rf_pr": 0, "ow_pm": 0}[name]
+        L.append("let g = coll.lock(key());")
+        L.append("let ge = g.%d.is_err();" % pos)
+        L.append("vcheck!((!must || ge) && (may || !ge), M_POISON_MODEL);")
+        L.append("drop(g);")
+        L.append("let ce = coll.scoped_lock(key(), |d| d.%d.is_err());" % pos)
+        L.append("vcheck!((!must || ce) && (may || !ce), M_POISON_MODEL);")
+    L.append("vcheck!(!w().held_any(), M_LEAK);")
+    L.append("vcheck!(w().bad_release.get() == 0, M_BAD_RELEASE);")
+    L.append("vcheck!(key_is_back(), M_KEY_MODEL);")
+    L.append("vreach!(3);")
+    nm = "%s__%s" % (name, routes[ia][0])
+    return nm, fn_wrap(nm, L)
+
+
+def gen_poison(tier):
+    out = [HEADER]
+    names = []
+    for name in POIS_SHAPES:
+        for ia in range(len(pois_routes(name))):
+            nm, txt = pois_entry(name, ia)
+            names.append(nm)
+            out.append(txt)
+    return "\n".join(out), names
